@@ -24,6 +24,15 @@ type Val interface{}
 type TV struct {
 	T   Term
 	Dyn types.Type // statically known dynamic type of an interface value, if any
+	Org *origin    // where the value was read from (struct field), if known
+}
+
+// origin records that a value is field Field of object Base (either the
+// address of an embedded struct or the content of a pointer field).
+type origin struct {
+	STyp  types.Type
+	Field int
+	Base  Term
 }
 
 // SV is a struct held by value.
@@ -49,6 +58,8 @@ type AddrV struct {
 	Idx  Term   // element index (aElem)
 	Elem types.Type
 	G    *ssa.Global
+	STyp types.Type // aField: struct type and field index
+	FIdx int
 }
 
 type TupV []Val
@@ -70,6 +81,22 @@ type State struct {
 	// nonnil caches reference terms already known non-nil on this path
 	nonnil map[string]bool
 	clos   map[string]*CloV
+	ctxs   map[string]*ctxInfo // derived contexts created on this path
+	orgs   map[string]*origin  // provenance of terms read from struct fields
+	// goroutines started on this path that block on a context's Done channel
+	watchers []*watcher
+}
+
+type watcher struct {
+	tg   target
+	args []Val
+	ran  bool
+}
+
+type ctxInfo struct {
+	parent    Term
+	cancelFn  Term
+	cancelled bool
 }
 
 func (s *State) clone() *State {
@@ -82,6 +109,23 @@ func (s *State) clone() *State {
 	}
 	for k, v := range s.clos {
 		n.clos[k] = v
+	}
+	for _, w := range s.watchers {
+		c := *w
+		n.watchers = append(n.watchers, &c)
+	}
+	if len(s.orgs) > 0 {
+		n.orgs = make(map[string]*origin, len(s.orgs))
+		for k, v := range s.orgs {
+			n.orgs[k] = v
+		}
+	}
+	if len(s.ctxs) > 0 {
+		n.ctxs = make(map[string]*ctxInfo, len(s.ctxs))
+		for k, v := range s.ctxs {
+			c := *v
+			n.ctxs[k] = &c
+		}
 	}
 	return n
 }
@@ -140,6 +184,12 @@ type Config struct {
 	loops     []*loopEntry // active loops of the top frame (innermost last)
 	old       *State       // entry snapshot (top-level function)
 	trace     []string
+	heldLocks []heldLock // mutexes with a lock invariant currently held on this path
+}
+
+type heldLock struct {
+	ld *lockDecl
+	o  *origin
 }
 
 func (c *Config) clone() *Config {
@@ -149,6 +199,7 @@ func (c *Config) clone() *Config {
 	}
 	n.loops = append([]*loopEntry(nil), c.loops...)
 	n.trace = append([]string(nil), c.trace...)
+	n.heldLocks = append([]heldLock(nil), c.heldLocks...)
 	return n
 }
 
@@ -524,9 +575,6 @@ func (x *Exec) oblige(cfg *Config, kind, detail string, goal Term, props []strin
 	base := fmt.Sprintf("%s/%s(%s)", fullKey(x.fn), kind, detail)
 	x.oblNames[base]++
 	name := fmt.Sprintf("%s#%d", base, x.oblNames[base])
-	if len(props) == 0 {
-		props = x.curProps
-	}
 	o := &Obligation{Name: name, Kind: kind, Func: fullKey(x.fn), Props: props, Assumptions: append([]Term(nil), cfg.st.pc...), Goal: goal, Decls: x.d, Detail: detail, Pos: x.posOf(pos)}
 	o.Quantified = strings.Contains(goal.S, "(forall ") || strings.Contains(goal.S, "(exists ")
 	x.obls = append(x.obls, o)
